@@ -1,13 +1,13 @@
 package verifsim
 
 import (
-	"sync/atomic"
 	"errors"
 	"fmt"
 	"io"
 	"os"
 	"path/filepath"
 	"strings"
+	"sync/atomic"
 	"syscall"
 	"testing"
 	"testing/synctest"
